@@ -191,14 +191,20 @@ def all_calls():
 
 
 def valid(seq):
-    """the generator avoids start() after stop()/start() on the same observer object (a Python thread
-    cannot be restarted; outside the property's scope)"""
+    """the generator avoids start() after stop() and after a start() without an injected failure on the same observer
+    object (a Python thread cannot be restarted; outside the property's scope).  A start() with an injected emitter failure
+    may be followed by another start(): the retry after a failed start() (it must leave the emitters that are already running
+    alone, D27) - or, when the named watch had no emitter and the first start() succeeded, a RuntimeError in model and code
+    alike"""
     started = stopped = False
+    starts = 0
     for c in seq:
-        if c[0] == "start" and (stopped or started):
+        if c[0] == "start" and (stopped or started or starts >= 3):
             return False
         if c[0] == "start":
-            started = True   # also after a failed attempt: which other emitters it started depends on set order
+            starts += 1
+            if c[1] is None:
+                started = True
         if c[0] == "stop":
             stopped = True
     return True
